@@ -10,6 +10,7 @@
 """
 XPath 2.0 implementation - part 3 (functions)
 """
+import decimal
 import math
 import datetime
 import time
@@ -374,11 +375,13 @@ def evaluate__round_half_to_even(self: XPathFunction, context: ta.ContextType = 
     try:
         if isinstance(item, int):
             return round(item, precision)  # type: ignore[arg-type]
-        elif isinstance(item, Decimal):
-            return round(item, precision)  # type: ignore[arg-type]
-        elif isinstance(item, Float):
-            return Float(round(item, precision))  # type: ignore[arg-type]
-        return float(round(Decimal.from_float(item), precision))   # type: ignore[arg-type]
+
+        number = item if isinstance(item, Decimal) else Decimal.from_float(item)
+        with decimal.localcontext() as ctx:
+            # keeps all the integer digits of values with more digits than the context precision
+            ctx.prec = max(ctx.prec, number.adjusted() + 2 + min(max(precision, 0), ctx.prec))
+            result = round(number, precision)  # type: ignore[arg-type]
+        return result if isinstance(item, Decimal) else type(item)(result)
     except TypeError as err:
         if isinstance(context, XPathSchemaContext):
             return []
